@@ -78,13 +78,67 @@ def loop_perm(it: ast.AST, sorters: Dict[str, str], aliases: Dict[str, ast.AST])
     return None
 
 
+def _direct_bisect(fn, rid, key, meth, file) -> Optional[List[R.Inst]]:
+    """`for q in QUERIES: i = bisect_*(KEYS, q) - 1; ...; acc.append(..)` and `return np.array(acc)`: query order is kept by
+    construction; the segment selection must put a query that EQUALS a change position into the segment that change starts
+    (bisect_right - 1); bisect_left - 1 selects the previous segment there."""
+    from .. import seqexpr as SE
+    qparam = [a.arg for a in fn.node.args.args if a.arg != "self"]
+    if not qparam:
+        return None
+    env = SE.Env(fn.node)
+    loops = [n for n in walk_no_nested(fn.node) if isinstance(n, ast.For)]
+    for lp in loops:
+        alts = env.of(lp.iter)
+        if not alts or len(alts) != 1:
+            continue
+        sq = next(iter(alts))
+        if sq.base != qparam[0] or sq.filters or sq.elt != "_" or not isinstance(lp.target, ast.Name):
+            continue
+        apps = [c for c in ast.walk(lp) if isinstance(c, ast.Call) and call_name(c) == "append" and isinstance(c.func.value, ast.Name)]
+        bis = [c for c in ast.walk(lp) if isinstance(c, ast.Call) and call_name(c) in ("bisect_left", "bisect_right", "bisect", "searchsorted")]
+        if len(apps) != 1 or len(bis) != 1 or any(isinstance(x, (ast.Break, ast.Continue)) for x in ast.walk(lp)):
+            continue
+        acc = apps[0].func.value.id
+        rets = [n for n in walk_no_nested(fn.node) if isinstance(n, ast.Return) and n.value is not None]
+        if len(rets) != 1:
+            continue
+        rv = rets[0].value
+        plain = (isinstance(rv, ast.Name) and rv.id == acc) or (isinstance(rv, ast.Call) and call_name(rv) in ("array", "asarray", "list") and
+                                                               len(rv.args) >= 1 and isinstance(rv.args[0], ast.Name) and rv.args[0].id == acc)
+        out = []
+        if plain:
+            out.append(R.ok(rid, key, file, rets[0].lineno, idiom=f"one result per query in query order (no sorting), returned as it is"))
+        else:
+            out.append(R.undec(rid, key, file, rets[0].lineno, f"per-query loop, but the result expression '{unparse(rv)[:60]}' is not the plain accumulator"))
+        b = bis[0]
+        name = call_name(b)
+        side = next((k.value for k in b.keywords if k.arg == "side"), None)
+        right = name in ("bisect_right", "bisect") or (name == "searchsorted" and isinstance(side, ast.Constant) and side.value == "right")
+        # the selected index is <bisect> - 1 (possibly clamped)
+        minus1 = any(isinstance(x, ast.BinOp) and isinstance(x.op, ast.Sub) and x.left is b and isinstance(x.right, ast.Constant) and x.right.value == 1
+                     for x in ast.walk(lp))
+        k2 = f"TimingMap.{meth}:sweep"
+        if not minus1:
+            out.append(R.undec(rid, k2, file, b.lineno, f"use of the insertion point '{unparse(b)[:60]}' not recognised (expected <bisect> - 1)"))
+        elif right:
+            out.append(R.ok(rid, k2, file, b.lineno, idiom="active change = bisect_right(change positions, query) - 1"))
+        else:
+            out.append(R.viol(rid, k2, file, b.lineno,
+                              f"the active tempo change is selected with {name}(...) - 1: a query that lies exactly ON a tempo change gets the "
+                              f"insertion point before it and is converted with the PREVIOUS segment's tempo (a query exactly on a change "
+                              f"belongs to that change: bisect_right)", construct=f"{meth}: {name} - 1 selects the previous segment at equality"))
+        return out
+    return None
+
+
 def rule_r1(ctx) -> List[R.Inst]:
     M = ctx.M
     rid = "C10.R1"
     insts = []
     for meth in ("offsets", "snaps", "beats"):
         q = f"{T.TIMINGMAP}.{meth}"
-        fn = M.fn(q)
+        fn = M.nfn(q, subst="alias")
         file = M.mods[fn.mod].rel
         key = f"TimingMap.{meth}"
         sorters: Dict[str, str] = {}       # sorter var -> array it sorts
@@ -119,9 +173,37 @@ def rule_r1(ctx) -> List[R.Inst]:
                     zipped = a0.value.id
             if lpm and len(apps) == 1:
                 acc = (apps[0].func.value.id, lpm[0], lpm[1], lp, zipped)
+        if acc is None:
+            # running-sum form: acc = list(accumulate([f(prev, curr) for prev, curr in zip(x[:-1], x[1:])], initial=seed)):
+            # one result per element of x, in x's order (the seed stands for x[0])
+            for n in walk_no_nested(fn.node):
+                if not (isinstance(n, ast.Assign) and isinstance(n.targets[0], ast.Name)):
+                    continue
+                v = n.value
+                while isinstance(v, ast.Call) and call_name(v) in ("list", "tuple") and len(v.args) == 1:
+                    v = v.args[0]
+                if isinstance(v, ast.Call) and call_name(v) == "accumulate" and len(v.args) == 1 and \
+                        {k.arg for k in v.keywords} == {"initial"}:
+                    src = v.args[0]
+                    if isinstance(src, ast.Name) and src.id in _LOCALS:
+                        src = _LOCALS[src.id]
+                    if isinstance(src, (ast.ListComp, ast.GeneratorExp)) and len(src.generators) == 1 and not src.generators[0].ifs:
+                        it = src.generators[0].iter
+                        if isinstance(it, ast.Call) and call_name(it) == "zip" and len(it.args) == 2:
+                            a0, a1 = it.args
+                            if isinstance(a0, ast.Subscript) and isinstance(a1, ast.Subscript) and unparse(a0.value) == unparse(a1.value) and \
+                                    unparse(a0.slice) == ":-1" and unparse(a1.slice) == "1:" and isinstance(a0.value, ast.Name):
+                                lpm = loop_perm(a0.value, sorters, aliases)
+                                if lpm:
+                                    acc = (n.targets[0].id, lpm[0], lpm[1], src, None)
         rets = [n for n in walk_no_nested(fn.node) if isinstance(n, ast.Return) and n.value is not None]
         main = [r for r in rets if isinstance(r.value, ast.Subscript)]
         if acc is None or len(main) != 1:
+            # second structure: no sorting at all — one result per query, in query order, the active change found by bisection
+            direct = _direct_bisect(fn, rid, key, meth, file)
+            if direct is not None:
+                insts.extend(direct)
+                continue
             insts.append(R.undec(rid, key, file, fn.node.lineno, "sort / compute / unsort structure not recognised"))
             continue
         name, p, query, lp, zipped = acc
@@ -391,7 +473,7 @@ def rule_r4(ctx) -> List[R.Inst]:
     if not done:
         insts.append(R.undec(rid, "from_bpm_changes_snap:segment", ff, fs.node.lineno, "consecutive-pair loop not found"))
     # TimingMap.offsets: change[i].offset + (snap - change_snap[i].snap).offset(change_snap[i]) with one index
-    fo = M.fn(T.TIMINGMAP + ".offsets")
+    fo = M.nfn(T.TIMINGMAP + ".offsets", subst="alias")
     ff = M.mods[fo.mod].rel
     app = [c for c in ast.walk(fo.node) if isinstance(c, ast.Call) and call_name(c) == "append" and c.args]
     diff = [n for n in ast.walk(fo.node) if isinstance(n, ast.Assign) and isinstance(n.value, ast.BinOp) and
